@@ -332,10 +332,22 @@ words_drop!(H72d, 23);
 // ---------------------------------------------------------------------------------------------
 // heap-owning types: a duplicated / lost payload is also a tool report (double free / leak)
 
-pub struct B8(pub Box<(u64, u64)>);
+pub struct B8(pub std::mem::ManuallyDrop<Box<(u64, u64)>>);
 impl B8 {
     fn can(id: Id) -> u64 {
         mix64(id ^ (20u64 << 40)) | 1
+    }
+    /// The payload pointer as an integer (read without dereferencing it).
+    #[inline]
+    fn addr(&self) -> usize {
+        unsafe { std::mem::transmute_copy::<std::mem::ManuallyDrop<Box<(u64, u64)>>, usize>(&self.0) }
+    }
+    fn fresh(v: (u64, u64)) -> Self {
+        let b = crate::monalloc::user_scope(|| B8(std::mem::ManuallyDrop::new(Box::new(v))));
+        if reg::safe_payloads() {
+            reg::payload_add(b.addr());
+        }
+        b
     }
 }
 impl Clone for B8 {
@@ -343,7 +355,10 @@ impl Clone for B8 {
         let p = self.probe();
         reg::user_call("clone");
         reg::on_clone(20, p.unwrap_or_else(|r| r), p.is_ok(), "B8");
-        crate::monalloc::user_scope(|| B8(Box::new(*self.0)))
+        match p {
+            Ok(id) => Self::fresh((id, Self::can(id))),
+            Err(_) => Self::fresh((0, 0)),
+        }
     }
 }
 impl Elem for B8 {
@@ -354,9 +369,13 @@ impl Elem for B8 {
     const HEAP: bool = true;
     fn make(id: Id) -> Self {
         reg::on_make(20, id);
-        crate::monalloc::user_scope(|| B8(Box::new((id, Self::can(id)))))
+        Self::fresh((id, Self::can(id)))
     }
     fn probe(&self) -> Result<Id, u64> {
+        if reg::safe_payloads() && !reg::payload_known(self.addr()) {
+            // garbage, or a payload that was already freed: never dereference it
+            return Err(self.addr() as u64);
+        }
         if self.0 .1 == Self::can(self.0 .0) {
             Ok(self.0 .0)
         } else {
@@ -366,14 +385,35 @@ impl Elem for B8 {
     fn set_id(&mut self, id: Id) {
         if let Ok(old) = self.probe() {
             rename(20, old, id);
+            **self.0 = (id, Self::can(id));
         }
-        *self.0 = (id, Self::can(id));
     }
 }
 impl Drop for B8 {
     fn drop(&mut self) {
+        if reg::safe_payloads() {
+            let a = self.addr();
+            if !reg::payload_known(a) {
+                if reg::payload_was_freed(a) {
+                    reg::violation("double-drop", format!("B8: an element whose heap payload {a:#x} was already freed is destroyed again"));
+                    reg::with(|r| r.drops += 1);
+                } else {
+                    reg::on_drop(20, a as u64, false, "B8");
+                }
+                reg::user_call("drop");
+                return; // the pointer is not ours to free
+            }
+            let p = self.probe();
+            let legit = reg::on_drop(20, p.unwrap_or_else(|r| r), p.is_ok(), "B8");
+            if legit && reg::payload_remove(a) {
+                unsafe { std::mem::ManuallyDrop::drop(&mut self.0) };
+            }
+            reg::user_call("drop");
+            return;
+        }
         let p = self.probe();
         reg::on_drop(20, p.unwrap_or_else(|r| r), p.is_ok(), "B8");
+        unsafe { std::mem::ManuallyDrop::drop(&mut self.0) };
         reg::user_call("drop");
     }
 }
@@ -383,11 +423,22 @@ impl Drop for B8 {
 pub struct S24d {
     pub id: u64,
     pub canary: u64,
-    pub payload: Box<u8>,
+    pub payload: std::mem::ManuallyDrop<Box<u8>>,
 }
 impl S24d {
     fn can(id: Id) -> u64 {
         mix64(id ^ (21u64 << 40)) | 1
+    }
+    #[inline]
+    fn addr(&self) -> usize {
+        unsafe { std::mem::transmute_copy::<std::mem::ManuallyDrop<Box<u8>>, usize>(&self.payload) }
+    }
+    fn fresh(id: Id, canary: u64, b: u8) -> Self {
+        let v = crate::monalloc::user_scope(|| S24d { id, canary, payload: std::mem::ManuallyDrop::new(Box::new(b)) });
+        if reg::safe_payloads() {
+            reg::payload_add(v.addr());
+        }
+        v
     }
 }
 impl Clone for S24d {
@@ -395,8 +446,8 @@ impl Clone for S24d {
         let p = self.probe();
         reg::user_call("clone");
         reg::on_clone(21, p.unwrap_or_else(|r| r), p.is_ok(), "S24d");
-        let b = if p.is_ok() { *self.payload } else { 0 };
-        crate::monalloc::user_scope(|| S24d { id: self.id, canary: self.canary, payload: Box::new(b) })
+        let b = if p.is_ok() { **self.payload } else { 0 };
+        Self::fresh(self.id, self.canary, b)
     }
 }
 impl Elem for S24d {
@@ -407,10 +458,16 @@ impl Elem for S24d {
     const HEAP: bool = true;
     fn make(id: Id) -> Self {
         reg::on_make(21, id);
-        crate::monalloc::user_scope(|| S24d { id, canary: Self::can(id), payload: Box::new(id as u8) })
+        Self::fresh(id, Self::can(id), id as u8)
     }
     fn probe(&self) -> Result<Id, u64> {
-        if self.canary == Self::can(self.id) && *self.payload == self.id as u8 {
+        if self.canary != Self::can(self.id) {
+            return Err(self.id);
+        }
+        if reg::safe_payloads() && !reg::payload_known(self.addr()) {
+            return Err(self.id);
+        }
+        if **self.payload == self.id as u8 {
             Ok(self.id)
         } else {
             Err(self.id)
@@ -419,22 +476,37 @@ impl Elem for S24d {
     fn set_id(&mut self, id: Id) {
         if let Ok(old) = self.probe() {
             rename(21, old, id);
+            self.id = id;
+            self.canary = Self::can(id);
+            **self.payload = id as u8;
         }
-        self.id = id;
-        self.canary = Self::can(id);
-        *self.payload = id as u8;
     }
 }
 impl Drop for S24d {
     fn drop(&mut self) {
         // Do not dereference the payload unless the inline canary is intact.
         let ok = self.canary == Self::can(self.id);
-        reg::on_drop(21, self.id, ok, "S24d");
-        if !ok {
-            // Bytes are garbage: freeing `payload` would take the process down and hide the
-            // report. Replace it by a fresh box (leaks the bogus pointer's target, if any).
-            unsafe { core::ptr::write(&mut self.payload, Box::new(0)) };
+        if reg::safe_payloads() {
+            let a = self.addr();
+            if ok && !reg::payload_known(a) && reg::payload_was_freed(a) {
+                // intact inline part but the payload is gone: a bitwise duplicate being destroyed
+                reg::on_drop(21, self.id, true, "S24d");
+                reg::user_call("drop");
+                return;
+            }
+            let known = reg::payload_known(a);
+            let legit = reg::on_drop(21, self.id, ok && known, "S24d");
+            if legit && reg::payload_remove(a) {
+                unsafe { std::mem::ManuallyDrop::drop(&mut self.payload) };
+            }
+            reg::user_call("drop");
+            return;
         }
+        reg::on_drop(21, self.id, ok, "S24d");
+        if ok {
+            unsafe { std::mem::ManuallyDrop::drop(&mut self.payload) };
+        }
+        // garbage bytes: freeing `payload` would take the process down and hide the report
         reg::user_call("drop");
     }
 }
